@@ -78,7 +78,8 @@ func canCarryText(t types.Type, depth int) bool {
 	}
 	switch u := t.Underlying().(type) {
 	case *types.Basic:
-		return u.Info()&types.IsString != 0 || u.Kind() == types.UntypedNil
+		// (a single byte carries a quarter of an IPv4 address: net.IPv4(a[0], a[1], a[2], a[3]))
+		return u.Info()&types.IsString != 0 || u.Kind() == types.UntypedNil || u.Kind() == types.Uint8
 	case *types.Slice:
 		if b, ok := u.Elem().Underlying().(*types.Basic); ok && (b.Kind() == types.Uint8 || b.Kind() == types.Int32) {
 			return true
@@ -654,6 +655,12 @@ func (ts *taintState) step(f *ssa.Function) {
 					// a field of an object that is itself tainted (e.g. filled in by an external call) is tainted
 					if fa, ok := x.X.(*ssa.FieldAddr); ok && ts.val[fa.X]&tText != 0 {
 						ts.add(x, tText, fa.X, "field of a tainted object", x.Pos())
+					}
+					// ... and so is an element of an array field of it (sockaddr.Addr[i])
+					if ia, ok := x.X.(*ssa.IndexAddr); ok {
+						if fa, ok := ia.X.(*ssa.FieldAddr); ok && ts.val[fa.X]&tText != 0 {
+							ts.add(x, tText, fa.X, "element of a field of a tainted object", x.Pos())
+						}
 					}
 				} else {
 					ts.add(x, ts.val[x.X], x.X, "", x.Pos())
